@@ -44,7 +44,125 @@ impl Setsum {
 //@ end
 
 struct WriteBatch { buffer: Vec<u8>, setsum: Setsum }
+
+// ---- WriteBatch::put / del: one entry's bytes appended, whole or not at all
+//@ extract sst/src/lib.rs | const MAX_KEY_LEN
+//@ post <<
+        MAX_KEY_LEN == 16384,
+//@ >>
+//@ bodystart <<
+    proof { assert(1usize << 14 == 16384) by (bit_vector); }
+//@ >>
+//@ end
+//@ extract sst/src/lib.rs | const MAX_VALUE_LEN
+//@ post <<
+        MAX_VALUE_LEN == 32768,
+//@ >>
+//@ bodystart <<
+    proof { assert(1usize << 15 == 32768) by (bit_vector); }
+//@ >>
+//@ end
+//@ extract sst/src/lib.rs | fn check_key_len
+//@ ret r
+//@ post <<
+        r is Ok <==> key@.len() <= 16384,
+//@ >>
+//@ end
+//@ extract sst/src/lib.rs | fn check_value_len
+//@ ret r
+//@ post <<
+        r is Ok <==> value@.len() <= 32768,
+//@ >>
+//@ end
+// an entry as it is logged, and the bytes the derive-generated codec writes for it (prototk: C15; uninterpreted here)
+enum Item { Put { key: Seq<u8>, ts: u64, val: Seq<u8> }, Del { key: Seq<u8>, ts: u64 } }
+uninterp spec fn entry_bytes(i: Item) -> Seq<u8>;
+//@ extract sst/src/lib.rs | struct KeyValuePut
+//@ end
+//@ extract sst/src/lib.rs | struct KeyValueDel
+//@ end
+//@ extract sst/src/lib.rs | enum KeyValueEntry
+//@ end
+impl<'a> KeyValueEntry<'a> {
+    spec fn item(&self) -> Item {
+        match *self {
+            KeyValueEntry::Put(p) => Item::Put { key: p.key_frag@, ts: p.timestamp, val: p.value@ },
+            KeyValueEntry::Del(d) => Item::Del { key: d.key_frag@, ts: d.timestamp },
+        }
+    }
+    spec fn whole_key(&self) -> bool { match *self { KeyValueEntry::Put(p) => p.shared == 0, KeyValueEntry::Del(d) => d.shared == 0 } }
+    spec fn payload(&self) -> int { match *self { KeyValueEntry::Put(p) => (p.key_frag@.len() + p.value@.len()) as int, KeyValueEntry::Del(d) => d.key_frag@.len() as int } }
+}
+// buffertk::stack_pack(entry): a lazily packed value; what it will write and how long that is
+#[verifier::external_body]
+struct Packed { _p: u8 }
+impl Packed {
+    uninterp spec fn bytes(&self) -> Seq<u8>;
+    #[verifier::external_body]
+    fn pack_sz(&self) -> (r: usize) ensures r == self.bytes().len() { unimplemented!() }
+    #[verifier::external_body]
+    fn append_to_vec(&self, v: &mut Vec<u8>) ensures final(v)@ == old(v)@ + self.bytes() { unimplemented!() }
+}
+// ASSUMED of the codec: tag + lengths + varints add at most 64 bytes to the key and value bytes
+#[verifier::external_body]
+fn stack_pack(e: KeyValueEntry<'_>) -> (r: Packed)
+    ensures e.whole_key() ==> r.bytes() == entry_bytes(e.item()), r.bytes().len() <= e.payload() + 64,
+{ unimplemented!() }
+//@ extract sst/src/log.rs | fn check_batch_size_plus
+//@ ret r
+//@ rewrite X25 `fn check_batch_size_plus<P: Packable>(buffer: &[u8], pa: P)` => `fn check_batch_size_plus(buffer: &[u8], pa: &Packed)`
+//@ pre <<
+        buffer@.len() + pa.bytes().len() <= usize::MAX,
+//@ >>
+//@ post <<
+        r is Ok <==> buffer@.len() + pa.bytes().len() <= 1048576,
+//@ >>
+//@ end
+impl Setsum {
+    // what has been folded into this setsum (sst::Setsum::put / del: C14)
+    uninterp spec fn items(&self) -> Seq<Item>;
+    #[verifier::external_body]
+    fn put(&mut self, key: &[u8], timestamp: u64, value: &[u8])
+        ensures final(self).items() == old(self).items().push(Item::Put { key: key@, ts: timestamp, val: value@ }),
+    { unimplemented!() }
+    #[verifier::external_body]
+    fn del(&mut self, key: &[u8], timestamp: u64)
+        ensures final(self).items() == old(self).items().push(Item::Del { key: key@, ts: timestamp }),
+    { unimplemented!() }
+}
 impl WriteBatch {
+    // Builder::put / del for WriteBatch (the trait-impl header is dropped).  NOTE (observation, not a property of C12): on the
+    // `table full` error path the batch's setsum has already taken the entry that its buffer refuses; every caller
+    // in the repository drops the batch on Err.
+//@ extract sst/src/log.rs | impl Builder for WriteBatch :: fn put
+//@ ret r
+//@ rewrite-re? X7 `check_batch_size_plus\(&self\.buffer, &pa\)` => `check_batch_size_plus(self.buffer.as_slice(), &pa)`
+//@ pre <<
+        old(self).buffer@.len() <= 1048576,
+//@ >>
+//@ post <<
+        r is Ok <==> key@.len() <= 16384 && value@.len() <= 32768 && old(self).buffer@.len() + entry_bytes(Item::Put { key: key@, ts: timestamp, val: value@ }).len() <= 1048576,
+        // whole ...
+        r is Ok ==> final(self).buffer@ == old(self).buffer@ + entry_bytes(Item::Put { key: key@, ts: timestamp, val: value@ })
+            && final(self).setsum.items() == old(self).setsum.items().push(Item::Put { key: key@, ts: timestamp, val: value@ }),
+        // ... or not at all
+        r is Err ==> final(self).buffer@ == old(self).buffer@,
+//@ >>
+//@ end
+//@ extract sst/src/log.rs | impl Builder for WriteBatch :: fn del
+//@ ret r
+//@ rewrite-re? X7 `check_batch_size_plus\(&self\.buffer, &pa\)` => `check_batch_size_plus(self.buffer.as_slice(), &pa)`
+//@ pre <<
+        old(self).buffer@.len() <= 1048576,
+//@ >>
+//@ post <<
+        r is Ok <==> key@.len() <= 16384 && old(self).buffer@.len() + entry_bytes(Item::Del { key: key@, ts: timestamp }).len() <= 1048576,
+        r is Ok ==> final(self).buffer@ == old(self).buffer@ + entry_bytes(Item::Del { key: key@, ts: timestamp })
+            && final(self).setsum.items() == old(self).setsum.items().push(Item::Del { key: key@, ts: timestamp }),
+        r is Err ==> final(self).buffer@ == old(self).buffer@,
+//@ >>
+//@ end
+
 //@ extract sst/src/log.rs | impl WriteBatch :: fn merge
 //@ ret r
 //@ rewrite-re? X17 `\b(self\.\w+) \+= (.+);` => `\1 = \1.add(\2);`
@@ -152,7 +270,7 @@ impl FsyncCoalescingCore {
 //@ end
 }
 
-//@ min-verified 8
+//@ min-verified 15
 } // verus!
 // `Result::expect` wants E: Debug; the formatting itself is never interpreted
 impl std::fmt::Debug for SError { fn fmt(&self, _f: &mut std::fmt::Formatter<'_>) -> std::fmt::Result { Ok(()) } }
